@@ -1,11 +1,86 @@
 # ------------------------------------------------------------------------------------------------
 # jxl-coding: entropy decoder kernels (C04 mainly; C01, C02, C11)
+# Reader states: Bitstream's fields are private to jxl-bitstream, so harnesses here reach a reader state with
+# Bitstream::new + skip_bits / peek / consume only; "bounded:reader ..." says which states that covers.
 # ------------------------------------------------------------------------------------------------
 CD = "crates/jxl-coding/src/lib.rs"; CDM = "kani/jxl-coding/lib.rs"
-CANARIES["jxl-coding"] = dict(anchor=CD, module=CDM, harness="canary", kind="complete", fns=[], timeout=60)
-
+# the lib.rs harness module contains a proof_for_contract(add_log2_ceil) harness, so the contract attribute must be
+# inserted whenever that module is compiled: every lib.rs row and the crate canary (which lives there) carry it.
 _log2_attrs = [dict(file=CD, before="fn add_log2_ceil(x: u32) -> u32 {", attrs=[
     "kani::ensures(|r: &u32| *r <= 32 && (1u64 << *r) >= x as u64 + 1 && (*r == 0 || (1u64 << (*r - 1)) < x as u64 + 1))"])]
+CANARIES["jxl-coding"] = dict(anchor=CD, module=CDM, harness="canary", kind="complete", fns=[], timeout=60, attrs=_log2_attrs)
 K("cd.add_log2_ceil", ["C01", "C04"], "jxl-coding", CD, CDM, "add_log2_ceil_contract", "complete",
   ["add_log2_ceil"], "ensures r is the least k with 2^k >= x + 1, i.e. ceil(log2(x+1)), for every u32 "
   "(kani::ensures on the real fn, proof_for_contract)", attrs=_log2_attrs)
+K("cd.add_log2_ceil_spec", ["C04"], "jxl-coding", CD, CDM, "add_log2_ceil_matches_spec", "complete",
+  ["add_log2_ceil"], "equals the defining loop 'least k with 2^k >= x+1' and its closed form (bit length) for every u32; "
+  "widths 3,3,3,4,4 for log_alphabet_size 5,6,7,8,15", attrs=_log2_attrs)
+K("cd.integer_config_parse", ["C01", "C04", "C11"], "jxl-coding", CD, CDM, "integer_config_parse_contract",
+  "bounded:reader = fresh Bitstream over <= 4 bytes advanced by <= 7 bits (parse reads <= 12 bits); every bit content, all 5 call-site log_alphabet_size values",
+  ["IntegerConfig::parse", "add_log2_ceil"],
+  "fields, consumed bits and Ok/InvalidIntegerConfig/unexpected-eof outcome equal the standard's C.2.3 procedure on the bit view; "
+  "ensures msb_in_token + lsb_in_token <= split_exponent <= 15 and split == 1 << split_exponent "
+  "(split_exponent <= log_alphabet_size does NOT hold and is not claimed)", attrs=_log2_attrs)
+K("cd.hybrid_uint_roundtrip", ["C01", "C04"], "jxl-coding", CD, CDM, "hybrid_uint_roundtrip",
+  "bounded:reader = the state after read_symbol (fresh 16-byte Bitstream advanced <= 7 bits, refilled, <= 16 bits consumed); complete over every u32 value, every IntegerConfig parse can return, every surrounding bit",
+  ["DecoderInner::read_uint_prefilled"],
+  "read_uint_prefilled(cfg, token, stream holding bits) with (token, nbits, bits) = spec_hybrid_uint_encode(cfg, v) returns v, consumes exactly nbits, leaves the following bits intact", attrs=_log2_attrs)
+K("cd.read_uint_prefilled", ["C01", "C04", "C11"], "jxl-coding", CD, CDM, "read_uint_prefilled_contract",
+  "bounded:reader = the state after read_symbol over <= 16 bytes (incl. cut streams); complete over every token <= 65535 and every IntegerConfig",
+  ["DecoderInner::read_uint_prefilled"],
+  "total for every token a symbol reader can return; value and bit count = C.3.3 formula; on a cut stream: NO error, NO bit consumed, "
+  "missing raw bits read as zero (documented C11 exception: consume_bits' result is discarded)", attrs=_log2_attrs)
+K("cd.finalize", ["C04", "C11"], "jxl-coding", CD, CDM, "finalize_contract", "complete",
+  ["Coder::finalize", "Decoder::finalize"], "ANS: Ok iff state == 0x130000, otherwise InvalidAnsStream (not unexpected-eof); prefix: always Ok", attrs=_log2_attrs)
+K("cd.lz77_step", ["C01", "C04"], "jxl-coding", CD, CDM, "lz77_step_contract",
+  "bounded:num_decoded <= 8 (window <= 8 entries; the 2^20 ring wrap-around is not exercised), 2 clusters; complete over tokens, configs, min_symbol, min_length, dist_multiplier <= 306783377",
+  ["DecoderInner::read_varint_with_multiplier_clustered_lz77", "DecoderInner::read_uint_prefilled", "DecoderInner::lz_dist_cluster"],
+  "inductive step: requires lz_inv (window.len == min(num_decoded, 2^20), copy_pos < num_decoded), min_length >= 3, num_decoded < u32::MAX; "
+  "ensures no panic, lz_inv again (Ok or Err), Ok => num_decoded + 1, value stored in the window, a pending copy returns window[copy_pos] and reads no bits. "
+  "Symbol reader stubbed by an assumed contract (arbitrary token <= 65535 or error, <= 16 bits)", timeout=300, attrs=_log2_attrs)
+
+AN = "crates/jxl-coding/src/ans.rs"; ANM = "kani/jxl-coding/ans.rs"
+_ans_contract = ("requires wf_table (buckets.len() << log_bucket_size == 4096, mask) and wf_slot at state & 0xfff (symbol < len, offset < D[symbol] <= 4096, "
+                 "dist_xor consistent); ensures symbol = AliasMapping(state & 0xFFF), state' = D[symbol] * (state >> 12) + offset refilled with u(16) iff < 2^16, "
+                 "bits consumed 16 / 0, following bits intact; get_unchecked / transmute in bounds")
+for _las, _tier in ((5, "quick"), (8, "thorough"), (6, "thorough"), (7, "thorough")):
+    K("cd.ans_step_las%d" % _las, ["C01", "C02", "C04"], "jxl-coding", AN, ANM, "read_symbol_contract_las%d" % _las,
+      "bounded:reader = fresh 16-byte Bitstream advanced by <= 15 bits; complete over every wf table with 2^%d buckets, every 32-bit state, every stream content" % _las,
+      ["ans::Histogram::read_symbol"], _ans_contract, tier=_tier, timeout=300 if _tier == "quick" else 900)
+K("cd.ans_cut_stream", ["C01", "C04", "C11"], "jxl-coding", AN, ANM, "read_symbol_cut_stream",
+  "bounded:stream <= 3 bytes, start offset <= 7, tables with 32 buckets; complete over table, state, content",
+  ["ans::Histogram::read_symbol"],
+  "on a cut stream the step equals spec_ans_step, whose only failure is 'refill needed and < 16 bits left' = unexpected-eof with nothing consumed "
+  "(state is clobbered on Err: the decoder must be dropped)", timeout=300)
+K("cd.ans_prefix_lemma", ["C11"], "jxl-coding", AN, ANM, "read_symbol_prefix_lemma",
+  "bounded:buffer <= 4 bytes, every cut, tables with 32 buckets", ["ans::Histogram::read_symbol"],
+  "relational: the step on any prefix equals the step on the whole data (symbol, state, position) or is unexpected-eof consuming nothing",
+  tier="thorough", timeout=900)
+K("cd.ans_parse_one_symbol_las5", ["C01", "C02", "C04"], "jxl-coding", AN, ANM, "parse_one_symbol_las5",
+  "bounded:3 concrete one-symbol headers (symbol 0, 9, 31), log_alphabet_size 5; all 4096 slots",
+  ["ans::Histogram::parse", "ans::Histogram::read_u8", "ans::Histogram::single_symbol"],
+  "parse establishes wf_table and wf_slot for every slot; slot x -> (symbol, x) (bijection onto the symbol's 4096 offsets); D = transmitted distribution; "
+  "single_symbol() = the symbol. Bit reader stubbed by an assumed contract (scripted header fields)", timeout=300)
+K("cd.ans_parse_one_symbol_las6", ["C01", "C02", "C04"], "jxl-coding", AN, ANM, "parse_one_symbol_las6",
+  "bounded:2 concrete one-symbol headers (symbol 1, 40), log_alphabet_size 6; all 4096 slots",
+  ["ans::Histogram::parse", "ans::Histogram::read_u8"], "as cd.ans_parse_one_symbol_las5", tier="thorough", timeout=600)
+
+PF = "crates/jxl-coding/src/prefix.rs"; PFM = "kani/jxl-coding/prefix.rs"
+K("cd.prefix_single_symbol", ["C01", "C04", "C11"], "jxl-coding", PF, PFM, "single_symbol_contract",
+  "bounded:reader = fresh Bitstream over <= 16 bytes advanced by <= 15 bits; every symbol",
+  ["prefix::Histogram::with_single_symbol", "prefix::Histogram::read_symbol", "prefix::Histogram::single_symbol"],
+  "a single-symbol code decodes to its symbol consuming 0 bits, also at end of data; single_symbol() reports it")
+K("cd.prefix_table_lookup", ["C01", "C04"], "jxl-coding", PF, PFM, "read_symbol_table_contract",
+  "bounded:toplevel_bits <= 6, second-level table <= 40 entries, full 16-byte stream at offset 0; complete over table contents and stream bits",
+  ["prefix::Histogram::read_symbol"],
+  "requires table_wf and a well-formed selected slot; ensures in-range indexing, returns the selected (one- or two-level) entry's symbol and consumes its length",
+  timeout=300)
+K("cd.prefix_cut_stream", ["C01", "C04", "C11"], "jxl-coding", PF, PFM, "read_symbol_table_cut_stream",
+  "bounded:toplevel_bits <= 3, second-level table <= 40 entries, stream <= 3 bytes, offset <= 7",
+  ["prefix::Histogram::read_symbol"],
+  "on a cut stream: Ok exactly when the selected codeword fits in the remaining bits (same symbol/length as the zero-extended lookup), "
+  "otherwise unexpected-eof consuming nothing", timeout=300)
+
+PM = "crates/jxl-coding/src/permutation.rs"; PMM = "kani/jxl-coding/permutation.rs"
+K("cd.permutation_context", ["C01", "C04"], "jxl-coding", PM, PMM, "get_context_contract", "complete",
+  ["permutation::get_context", "add_log2_ceil"], "context = min(7, ceil(log2(x+1))) <= 7 for every u32")
